@@ -34,7 +34,9 @@ print(",".join(sorted(set(x for f in k.get('findings',[]) for x in f['keys']))))
 PY
 )
 EXCL="${EXCL0}${EXTRA_EXCL:+${EXCL0:+,}$EXTRA_EXCL}"; [ -n "$NO_EXCL" ] && EXCL=""
+if [ -n "$REPLAY" ]; then OMP_NUM_THREADS=1 timeout 900 "$T/$H" --replay "$REPLAY" --out "$T/out" > "$T/log" 2>&1; else
 RC_PARAMS="seed=$SEED max_success=$CASES max_size=100" OMP_NUM_THREADS=1 timeout 900 "$T/$H" --sub "$SUB" --out "$T/out" ${EXCL:+--exclude "$EXCL"} > "$T/log" 2>&1
+fi
 rc=$?
 if [ $rc -eq 0 ]; then echo "MUTANT-SURVIVED ($CASES cases, sub $SUB)"; else
   echo "MUTANT-KILLED rc=$rc"; grep -a -E "^key |^msg " "$T/out.fail" 2>/dev/null | cut -c1-300; grep -a -E "SUMMARY|runtime error" "$T/log" | head -3 | cut -c1-300; fi
